@@ -165,4 +165,117 @@ theorem reset_is_needed :
       [none, some [0x16, 3, 1, 0, 4, 0xa1, 0xa2, 0x16, 3]] := by
   decide +kernel
 
+/-! ### inside arbitrary other traffic (C07 ∘ the reset) -/
+
+theorem runOuts_append {κ σ γ ρ Pkt Out : Type} [DecidableEq κ] (A : Analyzer κ σ γ ρ Pkt Out)
+    (st : TtlMap κ σ × γ) (a b : List Pkt) :
+    A.runOuts st (a ++ b) = A.runOuts st a ++ A.runOuts (A.finalState st a) b := by
+  induction a generalizing st with
+  | nil => rfl
+  | cons p a ih => simp only [List.cons_append, Analyzer.runOuts, Analyzer.finalState, ih]
+
+theorem runOuts_length {κ σ γ ρ Pkt Out : Type} [DecidableEq κ] (A : Analyzer κ σ γ ρ Pkt Out)
+    (st : TtlMap κ σ × γ) (a : List Pkt) : (A.runOuts st a).length = a.length := by
+  induction a generalizing st with
+  | nil => rfl
+  | cons p a ih => simp only [Analyzer.runOuts, List.length_cons, ih]
+
+theorem connOf_eq {a b c d : Ep} (h : connOf a b = connOf c d) : (a = c ∧ b = d) ∨ (a = d ∧ b = c) := by
+  unfold connOf at h
+  by_cases h1 : Ep.le a b = true <;> by_cases h2 : Ep.le c d = true <;>
+    simp only [h1, h2, if_true, if_false, Prod.mk.injEq, Bool.false_eq_true] at h
+  · exact Or.inl h
+  · exact Or.inr h
+  · exact Or.inr ⟨h.2, h.1⟩
+  · exact Or.inl ⟨h.2, h.1⟩
+
+/-- **Reused 4-tuple inside arbitrary other traffic (HTTP).** In ANY capture that opens at most `cap ≥ 2`
+distinct flows: if the segments of connection `s`'s endpoint pair are, in arrival order, `old ++ s :: rest` —
+any earlier traffic on the pair, then a SYN without ACK whose sequence number is not the stored flow's — what
+the analyzer reports for `s :: rest` in the interleaved run is exactly what a fresh analyzer reports for
+`s :: rest` alone. -/
+theorem http_reused_tuple_interleaved {γ Q P : Type} (H : HttpParams γ Q P) (hri : ResultIndep H)
+    (tr old : List Seg) (s : Seg) (rest : List Seg) (cap : Nat) (hcap : 2 ≤ cap) (g : γ)
+    (hs : s.syn = true) (ha : s.ack = false)
+    (hsel : tr.filter (fun p => decide (httpConnOf p = httpConnOf s)) = old ++ s :: rest)
+    (hisn : (((httpAnalyzer H).finalState ({ cap := cap }, g) old).1.get s.time ⟨s.src, s.dst⟩).map (·.clientIsn)
+      ≠ some s.seq)
+    (K : List FlowKey) (hK : ∀ x ∈ tr, x.syn = true → flowKeyOf x ∈ K) (hlen : K.length ≤ cap) :
+    (((httpAnalyzer H).runOuts ({ cap := cap }, g) tr).filter
+        (fun po => decide (httpConnOf po.1 = httpConnOf s))).drop old.length =
+      (httpAnalyzer H).runOuts ({ cap := cap }, g) (s :: rest) := by
+  have hold : ∀ x ∈ old, flowKeyOf x = ⟨s.src, s.dst⟩ ∨ flowKeyOf x = ⟨s.dst, s.src⟩ := by
+    intro x hx
+    have hm : x ∈ tr.filter (fun p => decide (httpConnOf p = httpConnOf s)) := by rw [hsel]; simp [hx]
+    have := of_decide_eq_true (List.mem_filter.1 hm).2
+    rcases connOf_eq this with ⟨h1, h2⟩ | ⟨h1, h2⟩
+    · left; simp [flowKeyOf, h1, h2]
+    · right; simp [flowKeyOf, h1, h2]
+  rw [http_isolation_cap H hri (httpConnOf s) tr cap g K hK hlen, hsel, runOuts_append]
+  have hl := runOuts_length (httpAnalyzer H) ({ cap := cap }, g) old
+  rw [List.drop_left' hl]
+  exact http_reused_tuple_as_fresh H hri old s rest cap hcap g hs ha hold hisn
+
+
+/-- **A SYN makes the 4-tuple fresh (TLS), on the cache-program model, one packet.** -/
+theorem tls_syn_resets_cache {R S : Type} (P : TlsParams R S) (s : Seg) (hs : s.syn = true) (now : Nat)
+    (m : TtlMap FlowKey R) (hkeys : ∀ e ∈ m.es, e.key = ⟨s.src, s.dst⟩) :
+    (tlsProg P s).run now m () = (tlsProg P s).run now { cap := m.cap } () := by
+  have hrm : m.remove ⟨s.src, s.dst⟩ = { cap := m.cap } := by
+    unfold TtlMap.remove
+    congr 1
+    apply List.filter_eq_nil_iff.2
+    intro e he
+    simp [hkeys e he]
+  unfold tlsProg
+  simp only [hs, if_true, Prog.run, hrm]
+  rfl
+
+/-- **Reused 4-tuple, whole traces (TLS).** After ANY earlier history `old` on the directed 4-tuple, on a fresh
+analyzer of capacity ≥ 1, a connection opened by its SYN is reported exactly as by a fresh analyzer. -/
+theorem tls_reused_tuple_as_fresh {R S : Type} (P : TlsParams R S) (old : List Seg) (s : Seg) (rest : List Seg)
+    (cap : Nat) (hcap : 1 ≤ cap) (hs : s.syn = true) (hold : ∀ x ∈ old, flowKeyOf x = flowKeyOf s) :
+    (tlsAnalyzer P).runOuts ((tlsAnalyzer P).finalState ({ cap := cap }, ()) old) (s :: rest) =
+      (tlsAnalyzer P).runOuts ({ cap := cap }, ()) (s :: rest) := by
+  have hinv : ∀ (tr : List Seg) (m : TtlMap FlowKey R),
+      (∀ x ∈ tr, flowKeyOf x = flowKeyOf s) → KeysIn [flowKeyOf s] m → 1 ≤ m.cap →
+      KeysIn [flowKeyOf s] ((tlsAnalyzer P).finalState (m, ()) tr).1 ∧
+        ((tlsAnalyzer P).finalState (m, ()) tr).1.cap = m.cap := by
+    intro tr
+    induction tr with
+    | nil => intro m _ h _; exact ⟨h, rfl⟩
+    | cons x tr ih =>
+      intro m hx h hc
+      have hins : InsertsIn [flowKeyOf s] (tlsProg P x) :=
+        tls_insertsIn P x _ (by
+          show flowKeyOf x ∈ _
+          rw [hx x (by simp)]; simp)
+      obtain ⟨_, b, c⟩ := progNoEvict_of_keysIn (tlsProg P x) hins x.time m () h (by simpa using hc)
+      obtain ⟨i1, i2⟩ := ih _ (fun y hy => hx y (by simp [hy])) b (by rw [c]; exact hc)
+      exact ⟨i1, i2.trans c⟩
+  obtain ⟨hk, hc⟩ := hinv old { cap := cap } hold (keysIn_empty _ cap) hcap
+  have hstep := tls_syn_resets_cache P s hs s.time ((tlsAnalyzer P).finalState ({ cap := cap }, ()) old).1
+    (fun e he => by simpa [flowKeyOf] using hk.2 e he)
+  rw [hc] at hstep
+  simp only [Analyzer.runOuts, Analyzer.step, tlsAnalyzer] at hstep ⊢
+  rw [hstep]
+
+/-- **Reused 4-tuple inside arbitrary other traffic (TLS).** -/
+theorem tls_reused_tuple_interleaved {R S : Type} (P : TlsParams R S) (tr old : List Seg) (s : Seg) (rest : List Seg)
+    (cap : Nat) (hcap : 1 ≤ cap) (hs : s.syn = true)
+    (hsel : tr.filter (fun p => decide (flowKeyOf p = flowKeyOf s)) = old ++ s :: rest)
+    (K : List FlowKey) (hK : ∀ x ∈ tr, flowKeyOf x ∈ K) (hlen : K.length ≤ cap) :
+    (((tlsAnalyzer P).runOuts ({ cap := cap }, ()) tr).filter
+        (fun po => decide (flowKeyOf po.1 = flowKeyOf s))).drop old.length =
+      (tlsAnalyzer P).runOuts ({ cap := cap }, ()) (s :: rest) := by
+  have hold : ∀ x ∈ old, flowKeyOf x = flowKeyOf s := by
+    intro x hx
+    have hm : x ∈ tr.filter (fun p => decide (flowKeyOf p = flowKeyOf s)) := by rw [hsel]; simp [hx]
+    exact of_decide_eq_true (List.mem_filter.1 hm).2
+  rw [tls_isolation_cap P (flowKeyOf s) tr cap K hK hlen, hsel, runOuts_append]
+  have hl := runOuts_length (tlsAnalyzer P) ({ cap := cap }, ()) old
+  rw [List.drop_left' hl]
+  exact tls_reused_tuple_as_fresh P old s rest cap hcap hs hold
+
+
 end Huginn.Props.C01
